@@ -102,6 +102,13 @@ def _seq_to_rx(seq, flags, lookbehind):
         elif op is _sre_c.AT:
             raise EngineUnsupported("regex anchor inside pattern")
         elif op is _sre_c.ASSERT and av[0] == -1:
+            if lookbehind == "consume":
+                # SEARCH semantics only: `(?<=X)Y` found somewhere in a string <=> `XY` found somewhere (X one character)
+                inner = av[1]
+                if len(inner) == 1 and inner[0][0] in (_sre_c.IN, _sre_c.LITERAL, _sre_c.NOT_LITERAL):
+                    parts.append(_seq_to_rx(inner, flags, lookbehind))
+                    continue
+                raise EngineUnsupported("regex look-behind of more than one character")
             if lookbehind == "drop":      # superset of the language
                 continue
             if lookbehind == "never":     # subset: the alternative containing it never matches
@@ -280,8 +287,29 @@ class SymPattern:
         return RL.ALL
 
     def contains_rx(self):
-        a0, a1, r = self._re()
+        try:
+            a0, a1, r = self._re()
+        except EngineUnsupported:
+            # alternatives anchored with ^ inside a group, look-behinds: search semantics, alternative by alternative
+            return self._contains_alternatives()
         return RL.cat(RL.EPS if a0 else RL.ALL, RL.cat(r, self._right(a1)))
+
+    def _contains_alternatives(self):
+        parsed = _sre_parser.parse(self._real.pattern, self._real.flags & ~_re.UNICODE)
+        seq = list(parsed)
+        while len(seq) == 1 and seq[0][0] is _sre_c.SUBPATTERN:
+            seq = list(seq[0][1][3])
+        if not (len(seq) == 1 and seq[0][0] is _sre_c.BRANCH):
+            raise EngineUnsupported("regex shape for search()")
+        alts = []
+        for alt in seq[0][1][1]:
+            alt = list(alt)
+            anchored = bool(alt) and alt[0][0] is _sre_c.AT and alt[0][1] in (_sre_c.AT_BEGINNING, _sre_c.AT_BEGINNING_STRING)
+            if anchored:
+                alt = alt[1:]
+            body = _seq_to_rx(alt, parsed.state.flags, "consume")
+            alts.append(RL.cat(RL.EPS if anchored else RL.ALL, RL.cat(body, RL.ALL)))
+        return RL.alt(*alts)
 
     def match_rx(self):
         a0, a1, r = self._re()
@@ -347,8 +375,42 @@ class SymFindIter:
     def __iter__(self):
         # any(gen) asks for the first element: exists iff search succeeds
         if ctx().decide(z3.InRe(self.s.t, self.pat.contains_re())):
-            yield ((None, None), SymMatch(None, {}))
+            yield OpaqueMatch()
             raise EngineUnsupported("finditer: more than emptiness observed")
+
+
+class Opaque:
+    """a value the engine knows nothing about: any use is outside its reach"""
+    __vf_symbolic__ = True
+
+    def __getattr__(self, k):
+        if k.startswith("__") and k.endswith("__"):
+            raise AttributeError(k)
+        raise EngineUnsupported("use of an unmodelled value (.%s)" % k)
+
+    def __bool__(self):
+        raise EngineUnsupported("truth value of an unmodelled value")
+
+    def __eq__(self, o):
+        raise EngineUnsupported("comparison of an unmodelled value")
+
+    __hash__ = None
+
+
+class OpaqueMatch:
+    """one match of finditer on a symbolic string: exists, but its span and text are not modelled"""
+    __vf_symbolic__ = True
+
+    def span(self, *a):
+        return Opaque()
+
+    def group(self, *a):
+        return Opaque()
+
+    def __getattr__(self, k):
+        if k.startswith("__") and k.endswith("__"):
+            raise AttributeError(k)
+        raise EngineUnsupported("OpaqueMatch.%s" % k)
 
 
 # ------------------------------------------------------------------------------------------------
